@@ -59,7 +59,14 @@ def call_repeatedly(interval, func, *args):
     t.daemon = True
     t.start()
 
-    return stopped.set
+    def stop():
+        stopped.set()
+        # wait for a call that is already under way, so that nothing is
+        # sent by this thread after it has been stopped
+        if threading.current_thread() is not t:
+            t.join()
+
+    return stop
 
 
 class RmcpMsg(object):
